@@ -18,3 +18,51 @@ pub assume_specification [i128::checked_neg] (a: i128) -> (r: Option<i128>)
     ensures a == i128::MIN ==> r.is_none(), a != i128::MIN ==> r.is_some() && r.unwrap() as int == -(a as int);
 pub assume_specification [i128::checked_abs] (a: i128) -> (r: Option<i128>)
     ensures a == i128::MIN ==> r.is_none(), a != i128::MIN ==> r.is_some() && r.unwrap() as int == (if a < 0 { -(a as int) } else { a as int });
+pub assume_specification [u32::isqrt] (a: u32) -> (r: u32)
+    ensures (r as int) * (r as int) <= a as int, (a as int) < (r as int + 1) * (r as int + 1);
+pub assume_specification [u64::isqrt] (a: u64) -> (r: u64)
+    ensures (r as int) * (r as int) <= a as int, (a as int) < (r as int + 1) * (r as int + 1);
+pub assume_specification [u32::is_power_of_two] (a: u32) -> (r: bool)
+    ensures r == (a > 0 && (a & ((a - 1) as u32)) == 0);
+pub assume_specification [u64::abs_diff] (a: u64, b: u64) -> (r: u64)
+    ensures r as int == (if a >= b { a as int - b as int } else { b as int - a as int });
+pub assume_specification [i128::abs_diff] (a: i128, b: i128) -> (r: u128)
+    ensures r as int == (if a >= b { a as int - b as int } else { b as int - a as int });
+pub assume_specification [i128::unsigned_abs] (a: i128) -> (r: u128)
+    ensures r as int == (if a < 0 { -(a as int) } else { a as int });
+pub assume_specification [i128::signum] (a: i128) -> (r: i128)
+    ensures r == (if a > 0 { 1i128 } else if a == 0 { 0i128 } else { -1i128 });
+pub assume_specification [i128::is_positive] (a: i128) -> (r: bool) ensures r == (a > 0);
+pub assume_specification [i128::is_negative] (a: i128) -> (r: bool) ensures r == (a < 0);
+pub open spec fn i128_clamp(x: int) -> i128 { if x > i128::MAX { i128::MAX } else if x < i128::MIN { i128::MIN } else { x as i128 } }
+pub assume_specification [i128::saturating_add] (a: i128, b: i128) -> (r: i128) ensures r == i128_clamp(a as int + b as int);
+pub assume_specification [i128::saturating_sub] (a: i128, b: i128) -> (r: i128) ensures r == i128_clamp(a as int - b as int);
+pub assume_specification [i128::saturating_mul] (a: i128, b: i128) -> (r: i128) ensures r == i128_clamp((a as int) * (b as int));
+pub assume_specification [i128::saturating_neg] (a: i128) -> (r: i128) ensures r == i128_clamp(-(a as int));
+pub assume_specification [i128::wrapping_neg] (a: i128) -> (r: i128) ensures r == (if a == i128::MIN { i128::MIN } else { (-(a as int)) as i128 });
+/// traps on a zero divisor and on MIN / -1 (returns only otherwise); Euclidean: 0 <= remainder < |b|
+pub assume_specification [i128::rem_euclid] (a: i128, b: i128) -> (r: i128)
+    ensures b != 0, !(a == i128::MIN && b == -1), r as int == (a as int) % (b as int);
+pub assume_specification [i128::div_euclid] (a: i128, b: i128) -> (r: i128)
+    ensures b != 0, !(a == i128::MIN && b == -1), r as int == (a as int) / (b as int);
+pub assume_specification<T> [Option::<T>::or] (o: Option<T>, p: Option<T>) -> (r: Option<T>)
+    ensures r == (if o.is_some() { o } else { p });
+pub assume_specification<T, U> [Option::<T>::and] (o: Option<T>, p: Option<U>) -> (r: Option<U>)
+    ensures r == (if o.is_some() { p } else { None::<U> });
+pub assume_specification<T> [Option::<T>::xor] (o: Option<T>, p: Option<T>) -> (r: Option<T>)
+    ensures r == (if o.is_some() && p.is_none() { o } else if o.is_none() && p.is_some() { p } else { None::<T> });
+pub assume_specification<T, U> [Option::<T>::zip] (o: Option<T>, p: Option<U>) -> (r: Option<(T, U)>)
+    ensures r == (if o.is_some() && p.is_some() { Some((o.unwrap(), p.unwrap())) } else { None::<(T, U)> });
+pub assume_specification<T, U, F: FnOnce(T) -> U> [Option::<T>::map_or] (o: Option<T>, default: U, f: F) -> (r: U)
+    requires o.is_some() ==> f.requires((o.unwrap(),)),
+    ensures o.is_none() ==> r == default, o.is_some() ==> f.ensures((o.unwrap(),), r);
+pub assume_specification<T, F: FnOnce() -> Option<T>> [Option::<T>::or_else] (o: Option<T>, f: F) -> (r: Option<T>)
+    requires o.is_none() ==> f.requires(()),
+    ensures o.is_some() ==> r == o, o.is_none() ==> f.ensures((), r);
+/// the workspace builds with overflow-checks on: `pow` traps (returns only) unless the mathematical power fits
+pub assume_specification [i128::pow] (base: i128, exp: u32) -> (r: i128)
+    ensures i128::MIN as int <= vstd::arithmetic::power::pow(base as int, exp as nat) <= i128::MAX as int,
+        r as int == vstd::arithmetic::power::pow(base as int, exp as nat);
+pub assume_specification [u32::pow] (base: u32, exp: u32) -> (r: u32)
+    ensures vstd::arithmetic::power::pow(base as int, exp as nat) <= u32::MAX as int,
+        r as int == vstd::arithmetic::power::pow(base as int, exp as nat);
